@@ -237,3 +237,21 @@ Qed.
 (* requests never touch the main table of a node that has bootstrap nodes (only the signed-peers table) *)
 Theorem request_leaves_main_table m now who v : mt_rt (mt_request m now who v false) = mt_rt m.
 Proof. destruct who as [[i ip] port]. reflexivity. Qed.
+
+(* ---- the refresh asks what the node knew when the iteration began ---- *)
+Theorem refresh_asks_what_it_knew m now n :
+  refresh_is_due m now = true -> In n (rt_values (mt_rt m)) \/ In n (rt_values (mt_srt m)) ->
+  In (nip n, nport n) (refresh_seeds m now).
+Proof.
+  intros Hd Hin. unfold refresh_seeds. rewrite Hd. apply in_map_iff. exists n. split; [reflexivity|].
+  apply in_or_app. exact Hin.
+Qed.
+
+(* in particular the entries that the round of the same iteration is about to drop *)
+Corollary refresh_asks_stale_entries_too m now n :
+  refresh_is_due m now = true -> In n (rt_values (mt_rt m)) -> is_stale now n = true ->
+  In (nip n, nport n) (refresh_seeds m now) /\ o_populate (snd (mt_maintain m now)) = true.
+Proof.
+  intros Hd Hin _. split; [apply refresh_asks_what_it_knew; auto|].
+  unfold mt_maintain. cbn [snd o_populate]. unfold refresh_is_due in Hd. rewrite Hd. apply Bool.orb_true_r.
+Qed.
